@@ -42,7 +42,7 @@ def _h1_cfgs():
     return out
 
 
-@contract("physt._facade:h1", props=["C01"], name="physt._facade:h1[binning object]")
+@contract("physt._facade:h1", props=["C01", "C17"], name="physt._facade:h1[binning object]")       # C17: multi-dimensional / transposed inputs
 class _h1:
     bounded = True
     bound_note = "h1: data length n<=3, bin count m<=3, contents symbolic"
